@@ -138,7 +138,7 @@ static struct {
 	uint64_t cases, cb[K_NKIND], waits, fd_entries_checked, wait_entries_checked, timer_entries_checked,
 		 task_entries_checked, unreg_of_due, handler_changes, reinstall_while_ready, tfd_engaged_cases,
 		 multi_timer_iters, failed_reg, quits, reenters, deadline_checks, rk_nonempty, b_obligations,
-		 nt[8], eintr_seen, sig_raised, ev_posts, raw_posts, actions, frees_in_handler, struct_reuse, timer_rereg_without_init, never_timers,
+		 nt[8], eintr_seen, sig_raised, ev_posts, raw_posts, actions, frees_in_handler, struct_reuse, timer_rereg_without_init, never_timers, timer_clears, train_plans,
 		 hyg_checks, stim_applied, max_timers, pop_cases, pop_max;
 } S;
 
@@ -1132,17 +1132,20 @@ enum {
 	A_FD_REG, A_FD_REGBAD, A_FD_UNREG, A_FD_SETH, A_CH_WRITE, A_CH_DRAIN, A_CH_FILL, A_CH_CLOSE,
 	A_TIMER_REG, A_TIMER_UNREG, A_TASK_REG, A_TASK_UNREG, A_EV_REG, A_EV_UNREG, A_EV_POST,
 	A_RAW_REG, A_RAW_UNREG, A_RAW_POST, A_SIG_REG, A_SIG_UNREG, A_SIG_RAISE, A_BURN, A_QUIT,
-	A_STIM, A_FD_REUSE, A_TRAIN, A_TASKBURN, A_NACT
+	A_STIM, A_FD_REUSE, A_TRAIN, A_TASKBURN, A_TIMER_CLEAR, A_NACT
 };
 static const unsigned char act_weight[A_NACT] = {
 	[A_FD_REG] = 10, [A_FD_REGBAD] = 2, [A_FD_UNREG] = 8, [A_FD_SETH] = 12, [A_CH_WRITE] = 12, [A_CH_DRAIN] = 8,
 	[A_CH_FILL] = 3, [A_CH_CLOSE] = 3, [A_TIMER_REG] = 10, [A_TIMER_UNREG] = 6, [A_TASK_REG] = 8,
 	[A_TASK_UNREG] = 4, [A_EV_REG] = 3, [A_EV_UNREG] = 3, [A_EV_POST] = 6, [A_RAW_REG] = 2, [A_RAW_UNREG] = 2,
 	[A_RAW_POST] = 5, [A_SIG_REG] = 2, [A_SIG_UNREG] = 2, [A_SIG_RAISE] = 4, [A_BURN] = 4, [A_QUIT] = 1,
-	[A_STIM] = 6, [A_FD_REUSE] = 3, [A_TRAIN] = 4, [A_TASKBURN] = 3,
+	[A_STIM] = 6, [A_FD_REUSE] = 3, [A_TRAIN] = 4, [A_TASKBURN] = 3, [A_TIMER_CLEAR] = 2,
 };
 
 static int self_obj = -1;	/* object whose handler is running (or -1) */
+/* a train (A_TRAIN) may carry a plan: at its n-th wake-up every timer is unregistered (the next poll has no time-out at all, after the
+ * kernel timer was armed for the old earliest deadline), one or two wake-ups later a timer that is not earlier than that deadline is registered */
+static struct { int active, o, cnt, clear_at, rereg_at; int64_t T; } train_plan;
 
 static void do_one_action(void)
 {
@@ -1358,12 +1361,38 @@ static void do_one_action(void)
 				fd_set_handler(o, B_IN, 1);
 			if (rng_pct(&R, 70))
 				timer_register(-1);
+			if (!pop_mode && !train_plan.active && nn >= 8 && rng_pct(&R, 45)) {
+				int m = rh_min();
+				train_plan.active = 1;
+				train_plan.o = o;
+				train_plan.cnt = 0;
+				train_plan.clear_at = 6 + (int)rng_n(&R, nn - 7);
+				train_plan.rereg_at = train_plan.clear_at + 1 + (int)rng_n(&R, 2);
+				train_plan.T = m >= 0 ? ts_ns(&objs[m].expires) : vt_now();
+				S.train_plans++;
+			}
 			trace("train(#%d,%d,%lld) ", o, nn, (long long)step); th(93, o, nn);
 			for (k = 1; k <= nn; k++) {
 				struct stim_arg *sa = malloc(sizeof(*sa));
 				sa->kind = 0; sa->c = objs[o].chan; sa->s = !objs[o].side; sa->n = 1;
 				vt_stim_at(t0 + k * step, stim_fn, sa);
 			}
+		}
+		break;
+	case A_TIMER_CLEAR:
+		/* every timer goes: the next poll is made without any time-out (after the kernel timer may have been armed for the
+		 * earliest of them); timers registered later must still be honoured */
+		if (pop_mode)
+			break;
+		{
+			int guard = 0;
+			while (nreg[K_TIMER] > 0 && guard++ < 4096) {
+				int v = reglist[K_TIMER][nreg[K_TIMER] - 1];
+				if (v == self_obj && !objs[v].registered)
+					break;
+				obj_unreg(v, 1);
+			}
+			S.timer_clears++;
 		}
 		break;
 	case A_STIM:
@@ -1492,7 +1521,9 @@ static void fd_cb(void *cookie, int band, int variant)
 		goto out;
 	}
 	/* usually consume the condition so that programs make progress */
-	if (rng_pct(&R, 70)) {
+	if (train_plan.active && o == train_plan.o && band == B_IN) {
+		chan_drain(ob->chan, ob->side);		/* a planned train: this descriptor only wakes the loop up, nothing else changes */
+	} else if (rng_pct(&R, 70)) {
 		unsigned r = rng_n(&R, 100);
 		if (band == B_IN && r < 75)
 			chan_drain(ob->chan, ob->side);
@@ -1502,6 +1533,30 @@ static void fd_cb(void *cookie, int band, int variant)
 			fd_set_handler(o, band, 0);
 		else
 			obj_unreg(o, 1);
+	}
+	if (train_plan.active && o == train_plan.o && band == B_IN && !winding) {
+		train_plan.cnt++;
+		if (train_plan.cnt == train_plan.clear_at) {
+			int guard = 0;
+			while (nreg[K_TIMER] > 0 && guard++ < 4096)
+				obj_unreg(reglist[K_TIMER][nreg[K_TIMER] - 1], 1);
+			S.timer_clears++;
+		} else if (train_plan.cnt >= train_plan.rereg_at) {
+			int o2 = timer_register(-1);
+			train_plan.active = 0;
+			if (o2 >= 0 && !objs[o2].never && !objs[o2].sweeper_of) {
+				struct iv_timer *t2 = objs[o2].p;
+				int64_t base = train_plan.T > vt_now() ? train_plan.T : vt_now();
+				int64_t e2 = base + (int64_t)rng_n(&R, 3000000);
+				iv_timer_unregister(t2);
+				t2->expires.tv_sec = e2 / VT_NS;
+				t2->expires.tv_nsec = e2 % VT_NS;
+				objs[o2].expires = t2->expires;
+				iv_timer_register(t2);
+				rh_push(ts_ns(&t2->expires), o2, objs[o2].gen);
+			}
+		}
+		goto out;	/* no random actions from the wake-ups of a planned train: the earliest deadline stays what it is */
 	}
 	do_actions();
 out:
@@ -2085,7 +2140,7 @@ static unsigned swarm_mask(void)
 	else if (!strcmp(g_focus, "C02") || !strcmp(g_focus, "C03"))
 		m |= (1u << A_FD_REG) | (1u << A_FD_SETH) | (1u << A_CH_WRITE) | (1u << A_FD_REUSE) | (1u << A_CH_DRAIN);
 	else if (!strcmp(g_focus, "C04") || !strcmp(g_focus, "C05"))
-		m |= (1u << A_TIMER_REG) | (1u << A_TIMER_UNREG) | (1u << A_STIM) | (1u << A_CH_WRITE) | (1u << A_FD_REG) | (1u << A_TRAIN) | (1u << A_TASKBURN);
+		m |= (1u << A_TIMER_REG) | (1u << A_TIMER_UNREG) | (1u << A_STIM) | (1u << A_CH_WRITE) | (1u << A_FD_REG) | (1u << A_TRAIN) | (1u << A_TASKBURN) | (1u << A_TIMER_CLEAR);
 	else if (!strcmp(g_focus, "C06"))
 		m |= (1u << A_TASKBURN) | (1u << A_TRAIN) | (1u << A_CH_WRITE) |
 		     (1u << A_TASK_REG) | (1u << A_TASK_UNREG) | (1u << A_FD_REG) | (1u << A_TIMER_REG);
@@ -2100,6 +2155,7 @@ static void run_case(long id)
 	uint64_t prop_sig, inj0 = vt_fault_fired();
 
 	case_inj0 = inj0;
+	train_plan.active = 0;
 
 	task_poll_run = 0;
 	mon_case_id = id;
@@ -2357,7 +2413,7 @@ int main(int argc, char **argv)
 		   "fd_entries_checked=%llu wait_entries_checked=%llu timer_entries_checked=%llu task_entries_checked=%llu "
 		   "unreg_of_due=%llu handler_changes=%llu reinstall_while_ready=%llu tfd_engaged_cases=%llu multi_timer_iters=%llu "
 		   "failed_reg=%llu quits=%llu reenters=%llu deadline_checks=%llu rk_nonempty=%llu b_obligations=%llu eintr_seen=%llu "
-		   "sig_raised=%llu ev_posts=%llu raw_posts=%llu actions=%llu frees_in_handler=%llu struct_reuse=%llu timer_rereg_without_init=%llu timers_more_than_2e31_s_away=%llu hyg_checks=%llu "
+		   "sig_raised=%llu ev_posts=%llu raw_posts=%llu actions=%llu frees_in_handler=%llu struct_reuse=%llu timer_rereg_without_init=%llu timers_more_than_2e31_s_away=%llu all_timers_unregistered_at_once=%llu hyg_checks=%llu "
 		   "stim_applied=%llu pop_cases=%llu pop_max=%llu max_timers=%llu quiescences=%llu time_advances=%llu timerfd_fires=%llu injected=%llu successful_calls_leaving_stale_errno=%llu violations=%d\n",
 		   g_method, (unsigned long long)S.cases, (unsigned long long)S.waits,
 		   (unsigned long long)S.cb[K_FD], (unsigned long long)S.cb[K_TIMER], (unsigned long long)S.cb[K_TASK],
@@ -2369,7 +2425,7 @@ int main(int argc, char **argv)
 		   (unsigned long long)S.quits, (unsigned long long)S.reenters, (unsigned long long)S.deadline_checks,
 		   (unsigned long long)S.rk_nonempty, (unsigned long long)S.b_obligations, (unsigned long long)S.eintr_seen,
 		   (unsigned long long)S.sig_raised, (unsigned long long)S.ev_posts, (unsigned long long)S.raw_posts,
-		   (unsigned long long)S.actions, (unsigned long long)S.frees_in_handler, (unsigned long long)S.struct_reuse, (unsigned long long)S.timer_rereg_without_init, (unsigned long long)S.never_timers,
+		   (unsigned long long)S.actions, (unsigned long long)S.frees_in_handler, (unsigned long long)S.struct_reuse, (unsigned long long)S.timer_rereg_without_init, (unsigned long long)S.never_timers, (unsigned long long)S.timer_clears,
 		   (unsigned long long)S.hyg_checks, (unsigned long long)S.stim_applied,
 		   (unsigned long long)S.pop_cases, (unsigned long long)S.pop_max, (unsigned long long)S.max_timers,
 		   (unsigned long long)vt_stats.quiescences, (unsigned long long)vt_stats.time_advances,
